@@ -1680,6 +1680,11 @@ def run(ctx):
         if do_corr:
             ctx.correspond(f"VBPTC{cd.name}", pairs)
 
+    # ---- the verifying side of the two checksum functions (coverage round: FiveBitChecksum.verify and CRC8.check were never executed):
+    # "the checksum read back equals the checksum computed over the message" is what verify / check decide - they must accept exactly
+    # the computed value, for every value of the checksum's range
+    for d, hit in checksum_verify_cases(ctx):
+        ctx.count("checksum-verify:" + hit)
     # ---- the two checksum functions: model vs implementation -----------------------------------------
     if do_corr:
         from okdmr.dmrlib.etsi.crc.crc8 import CRC8
@@ -1747,11 +1752,49 @@ def replay_history(inp, f):
     return 1 if H.bad else 0
 
 
+def verify_one(fn, data):
+    """(calculated value, values of the checksum's whole range that verify / check accept); fn = 'cs5' (data: bytes) | 'crc8' (data: bitarray)"""
+    from okdmr.dmrlib.etsi.crc.crc8 import CRC8
+    from okdmr.dmrlib.etsi.fec.five_bit_checksum import FiveBitChecksum
+
+    if fn == "cs5":
+        c = call(FiveBitChecksum.calculate, data)
+        acc = [v for v in range(31) if call(FiveBitChecksum.verify, data, v) != "0"]
+    else:
+        c = call(CRC8.calculate, bitarray(data))
+        acc = [v for v in range(256) if call(CRC8.check, bitarray(data), v) != "0"]
+    return c, acc
+
+
+def checksum_verify_cases(ctx):
+    rng = ctx.rng
+    out = []
+    cases = [("cs5", bytes([255] * L) if j == 0 else bytes(rng.randrange(256) for _ in range(L))) for L in range(0, 10) for j in range(ctx.budget(6, 60))]
+    cases += [("crc8", bitarray([rng.randrange(2) for _ in range(L)])) for L in (0, 1, 7, 8, 9, 28, 36, 72) for _ in range(ctx.budget(3, 30))]
+    for fn, d in cases:
+        c, acc = verify_one(fn, d)
+        txt = d.hex() if fn == "cs5" else bs(d)
+        ctx.case(("checksum-verify", fn, txt), nontrivial=bool(len(d)))
+        good = (not str(c).startswith("ERR")) and acc == [int(c)]
+        if not good:
+            ctx.fail("checksum-verify", {"mode": "checksum-verify", "fn": fn, "data": txt or "-"},
+                     f"{'FiveBitChecksum.verify' if fn == 'cs5' else 'CRC8.check'} does not accept exactly the value calculate() gives", expected=[c], actual=acc[:40])
+        out.append((txt, fn))
+    return out
+
+
 def replay(obj):
     f = obj.get("failure") or {}
     inp = f.get("input", {})
     print(json.dumps(obj.get("type")), f.get("kind"), "-", f.get("what"))
     print("recorded expected:", f.get("expected"), "actual:", f.get("actual"))
+    if inp.get("mode") == "checksum-verify":
+        d = inp["data"] if inp["data"] != "-" else ""
+        c, acc = verify_one(inp["fn"], bytes.fromhex(d) if inp["fn"] == "cs5" else bitarray(d))
+        print(f"implementation: calculate -> {c}; values accepted by {'verify' if inp['fn'] == 'cs5' else 'check'}: {acc[:40]}")
+        still = int(str(c).startswith("ERR") or acc != [int(c)])
+        print("still failing" if still else "does not fail any more")
+        return still
     if "history" in inp:
         return replay_history(inp, f)
     if inp.get("after_calls"):
